@@ -45,6 +45,7 @@ def gen_cases(ctx):
         mode = rng.choice(["D", "D", "D", "E", "X", "X", "P"])
         entry = rng.choice(["Project.sync", "sync_projects", "Job.sync", "sync_jobs"])
         par = rng.choice([2, True])
+        uncommon = rng.random() < 0.5
         if mode == "P":
             opts["strategy"] = rng.choice(["always", "never", "update"])
             opts["doc_sync"] = rng.choice(["update", "NO_SYNC", "bykey_regex"])
@@ -53,16 +54,20 @@ def gen_cases(ctx):
             for k in range(4):
                 src["jobs"].setdefault(str(k), {"files": syncgen.rand_files(rng), "doc": syncgen.rand_doc(rng)})
         if ctx.take(i):
-            yield {"mode": mode, "src": src, "dst": dst, "opts": opts, "entry": entry, "parallel": par}
+            yield {"mode": mode, "src": src, "dst": dst, "opts": opts, "entry": entry, "parallel": par,
+                   "uncommon": uncommon}
 
 
-def run_entry(D, S, src_spec, dst_spec, opts, entry, flog, dlog, **extra):
+def run_entry(D, S, src_spec, dst_spec, opts, entry, flog, dlog, uncommon=False, **extra):
     """Run a sync through one of the four entry points; returns exception or None."""
     from signac.sync import sync_jobs
 
     if entry in ("Project.sync", "sync_projects"):
         return syncgen.call_sync(D, S, opts, flog, dlog, entry=entry, **extra)
     common = sorted(set(src_spec["jobs"]) & set(dst_spec["jobs"])) or sorted(src_spec["jobs"])
+    only_src = sorted(set(src_spec["jobs"]) - set(dst_spec["jobs"]))
+    if uncommon and only_src:
+        common = only_src  # the destination job is not initialised yet
     if not common:
         return "skip"
     key = common[0]
@@ -88,14 +93,14 @@ def mode_dry(ctx, case):
     before = (model.snapshot(S.path, with_mtime=True), model.snapshot(D.path, with_mtime=True))
     with fsmon.Session([S.path, D.path], readonly=[S.path, D.path]) as sess:
         with contextlib.redirect_stdout(io.StringIO()):
-            err = run_entry(D, S, src_spec, dst_spec, opts, entry, [], [], dry_run=True)
+            err = run_entry(D, S, src_spec, dst_spec, opts, entry, [], [], uncommon=case.get("uncommon", False), dry_run=True)
     if err == "skip":
         return
     after = (model.snapshot(S.path, with_mtime=True), model.snapshot(D.path, with_mtime=True))
     ctx.monitor("dry_run_readonly")
     d2_before = model.snapshot(D2.path)
     with contextlib.redirect_stdout(io.StringIO()):
-        err2 = run_entry(D2, S2, src_spec, dst_spec, opts, entry, [], [])
+        err2 = run_entry(D2, S2, src_spec, dst_spec, opts, entry, [], [], uncommon=case.get("uncommon", False))
     would_change = model.snapshot(D2.path) != d2_before
     if sess.policy_hits or before != after:
         evs = [h[1] for h in sess.policy_hits]
